@@ -145,6 +145,17 @@ def step (st : St) (ts : List String) : St × String :=
   let (op, out) := splitArrow ts
   match op, out with
   | ["reset"], ["ok"] => ({}, "ok")
+  -- scale boundary ops: the re-pointed relationship starts at a node of another kind combination, so an exact
+  -- metrics comparison must reject it whatever the size of the graph
+  | ["scale", _], ["ok"] => ({}, "ok")
+  | ["scaledump", _], "ok" :: _ => (st, "ok")
+  | ["scaleverify"], "ok" :: _ => (st, "ok")
+  | ["scaleverify"], ["bad-op"] => (st, "ok")
+  | ["scaleverify"], other => (st, "reject scale-verify-rejects-faithful-copy " ++ " ".intercalate other)
+  | ["scalemutate"], ["mismatch"] => (st, "ok")
+  | ["scalemutate"], "ok" :: rest => (st, "reject verify-accepts-repointed-relationship-at-scale ok " ++ " ".intercalate rest)
+  | ["scalemutate"], ["bad-op"] => (st, "ok")
+  | ["scalemutate"], other => (st, "reject scale-verify-error " ++ " ".intercalate other)
   | ["graph", name], ["ok"] =>
     if st.src.any (·.g.name == name) then (st, "reject bad-op")
     else ({ st with src := st.src ++ [{ g := { name := name, nodes := [], edges := [] } }] }, "ok")
